@@ -281,7 +281,7 @@ func TestStateMachine(t *testing.T) {
 			}
 			return sc
 		}
-		steps, strays, numbered, longRuns, reopens := 0, 0, false, 0, 0
+		steps, strays, numbered, longRuns, reopens, failedCloses := 0, 0, false, 0, 0, 0
 		t.Repeat(map[string]func(*rapid.T){
 			"sessionCommand": func(t *rapid.T) {
 				if steps >= 60 {
@@ -326,6 +326,32 @@ func TestStateMachine(t *testing.T) {
 					t.Fatalf("history %v: %v; BMC: %v", h.desc, err, h.w.BMC.AllProblems())
 				}
 				reopens++
+			},
+			"closeThatDoesNotGoThrough": func(t *rapid.T) {
+				// Close on a session whose BMC refuses (or never answers) the Close
+				// Session command: the session stays open on the BMC, and whatever is
+				// sent on it afterwards continues the numbering
+				if failedCloses >= 3 || steps >= 60 {
+					t.Skip("enough")
+				}
+				failedCloses++
+				steps++
+				s := h.sess
+				if h.sess2 != nil && rapid.Bool().Draw(t, "second") {
+					s = h.sess2
+				}
+				k := uint16(ref.NetFnApp)<<8 | uint16(ref.CmdCloseSession)
+				orig := h.w.BMC.Handlers[k]
+				h.w.BMC.Handlers[k] = func(b *simbmc.BMC, rx *simbmc.Rx) (byte, []byte) { return 0xD4, nil }
+				script := rapid.SampledFrom([][]hx.Outcome{{hx.Final}, {hx.Lost}, {hx.Garbage, hx.Lost}, {hx.Busy, hx.Final}, {hx.BadSig, hx.Final}}).Draw(t, "closeAnswered")
+				h.sc.Install(h.w.BMC)
+				h.sc.Script, h.sc.Pos = script, 0
+				ctx, cancel := h.w.Ctx(h.budget(script))
+				err := s.Close(ctx)
+				cancel()
+				h.w.BMC.Handlers[k] = orig
+				h.desc = append(h.desc, fmt.Sprintf("session %#x:Close refused/unanswered:%s err=%v", s.RemoteID, hx.ScriptString(script), err != nil))
+				ev.Label("close-that-did-not-go-through")
 			},
 			"openSecondSession": func(t *rapid.T) {
 				if h.sess2 != nil {
@@ -494,7 +520,7 @@ func TestUDPHistories(t *testing.T) {
 }
 
 func TestCoverage(t *testing.T) {
-	ev.RequireLabels(t, 1, "enumeration-complete", "udp-history-with-retransmission", "session-closed-and-another-opened", "unanswered-run>=16", "session-with-integrity-none", "history-with-retransmission", "two-sessions-interleaved", "stray-in-session-reply-during-sessionless-command", "bmc-numbers-sessionless-packets")
+	ev.RequireLabels(t, 1, "enumeration-complete", "close-that-did-not-go-through", "udp-history-with-retransmission", "session-closed-and-another-opened", "unanswered-run>=16", "session-with-integrity-none", "history-with-retransmission", "two-sessions-interleaved", "stray-in-session-reply-during-sessionless-command", "bmc-numbers-sessionless-packets")
 }
 
 func min(a, b int) int {
